@@ -40,7 +40,7 @@ ASSUMPTIONS = [
     "calibration files: 'unknown' = a parameter/transfer/interaction name, source population or population column that the ParameterSet does not contain; rows that give a population for an ordinary parameter are malformed, not unknown, and are not generated",
     "single population type only (gen_model does not generate several types)",
 ]
-BUDGET = {"quick": 640, "thorough": 9000}
+BUDGET = {"quick": 640, "thorough": 20000}
 TIME_CAP = {"quick": 70, "thorough": 1150}
 RTOL_CONTENT = 1e-14
 RTOL_SIM = 1e-9
@@ -49,7 +49,7 @@ KINDS = ["rt-books", "rt-books", "rt-framework", "binary", "stateful", "stateful
 SIG_RT = [None, 0.0, "pos", "pos"]
 SIG_ZERO = [None, 0.0]
 PROFILE = {"max_steps": 24, "max_ord": 3, "extreme": 0.1, "p_transfer": 0.6, "p_interaction": 0.4, "p_yfactor": 0.4, "p_timed_yfactor": 0.2}
-LIB_QUICK = ["tb_simple", "udt", "usdt", "hypertension"]
+LIB_QUICK = ["tb_simple", "udt", "usdt", "hypertension", "hiv", "diabetes", "cervicalcancer", "service", "dt", "udt_dyn", "hiv_dyn", "tb_simple_dyn", "hypertension_dyn"]  # everything that loads here except tb (8 s)
 LIB_THOROUGH = ["tb_simple", "udt", "usdt", "hypertension", "hiv", "tb", "diabetes", "cervicalcancer", "service", "dt", "udt_dyn", "hiv_dyn", "tb_simple_dyn", "hypertension_dyn"]
 
 
@@ -268,7 +268,7 @@ def check_rt_books(case):
     try:
         D2 = H.rt_data(D, F)
     except Exception as e:
-        v.add("rt-books/databook/raises/" + _exc(e), "databook write->read raised %r" % e)
+        v.add("rt-books/databook/raises/" + type(e).__name__, "(%s) " % _exc(e) + "databook write->read raised %r" % e)
         v.flush()
     same = _content(v, "databook", H.proj_data(D), H.proj_data(D2), RTOL_CONTENT, "rt-books/content")
     pg2 = None
@@ -277,19 +277,19 @@ def check_rt_books(case):
             pg2 = H.rt_progset(pg, F, D2)
             same &= _content(v, "progbook", H.proj_progset(pg), H.proj_progset(pg2), RTOL_CONTENT, "rt-books/content")
         except Exception as e:
-            v.add("rt-books/progbook/raises/" + _exc(e), "program book write->read raised %r" % e)
+            v.add("rt-books/progbook/raises/" + type(e).__name__, "(%s) " % _exc(e) + "program book write->read raised %r" % e)
     try:
         ps2 = H.rt_parset(ps, F, D2)
         same &= _content(v, "calibration", H.proj_calibration(ps), H.proj_calibration(ps2), RTOL_CONTENT, "rt-books/content")
     except Exception as e:
-        v.add("rt-books/calibration/raises/" + _exc(e), "calibration write->read raised %r" % e)
+        v.add("rt-books/calibration/raises/" + type(e).__name__, "(%s) " % _exc(e) + "calibration write->read raised %r" % e)
         v.flush()
     if v.items:
         v.flush()
     try:
         arr1 = H.arrays(H.simulate(stg, F, ps2, pg2, ins))
     except Exception as e:
-        v.add("rt-books/behaviour/reread-not-runnable/" + _exc(e), "original runs, re-read books raise %r" % e)
+        v.add("rt-books/behaviour/reread-not-runnable/" + type(e).__name__, "(%s) " % _exc(e) + "original runs, re-read books raise %r" % e)
         v.flush()
     c = _cmp(arr0, arr1, same)
     if c:
@@ -300,7 +300,7 @@ def check_rt_books(case):
         pg3 = H.rt_progset(pg2, F, D3) if pg2 is not None else None
         ps3 = H.rt_parset(ps2, F, D3)
     except Exception as e:
-        v.add("rt-books/second-trip/raises/" + _exc(e), "second write->read raised %r" % e)
+        v.add("rt-books/second-trip/raises/" + type(e).__name__, "(%s) " % _exc(e) + "second write->read raised %r" % e)
         v.flush()
     _content(v, "databook", H.proj_data(D2), H.proj_data(D3), 0.0, "rt-books/second-trip")
     if pg2 is not None:
@@ -326,7 +326,7 @@ def check_rt_framework(case):
     try:
         F2 = H.rt_framework(F)
     except Exception as e:
-        v.add("rt-framework/raises/" + _exc(e), "framework write->read raised %r" % e)
+        v.add("rt-framework/raises/" + type(e).__name__, "(%s) " % _exc(e) + "framework write->read raised %r" % e)
         v.flush()
     same = _content(v, "framework", H.proj_framework(F), H.proj_framework(F2), RTOL_CONTENT, "rt-framework/content")
     units = {q: (F.get_databook_units(q), F2.get_databook_units(q)) for q in D.tdve}
@@ -337,7 +337,7 @@ def check_rt_framework(case):
         F3 = H.rt_framework(F2)
         _content(v, "framework", H.proj_framework(F2), H.proj_framework(F3), 0.0, "rt-framework/second-trip")
     except Exception as e:
-        v.add("rt-framework/second-trip/raises/" + _exc(e), "second framework write->read raised %r" % e)
+        v.add("rt-framework/second-trip/raises/" + type(e).__name__, "(%s) " % _exc(e) + "second framework write->read raised %r" % e)
     if not bad:
         try:
             D.validate(F2)
@@ -349,7 +349,7 @@ def check_rt_framework(case):
             if c:
                 v.add("rt-framework/behaviour", "simulation with the re-read framework differs (content %s): %r" % ("bit-identical" if same else "1e-14", c))
         except Exception as e:
-            v.add("rt-framework/behaviour/reread-not-usable/" + _exc(e), "original framework runs; with the re-read framework: %r" % e)
+            v.add("rt-framework/behaviour/reread-not-usable/" + type(e).__name__, "(%s) " % _exc(e) + "original framework runs; with the re-read framework: %r" % e)
     v.flush()
     ts = {p.get("ts") for p in case["spec"]["pars"]} - {None, 1.0}
     return {"nontrivial": True, "labels": _labels(case, ["framework:timescales" if ts else "framework:no-timescale", "content:bit-identical" if same else "content:1e-14"])}
@@ -373,15 +373,19 @@ def check_binary(case):
             fn = P.save(filename="p.prj", folder=d)
             P2 = at.Project.load(fn)
         except Exception as e:
-            v.add("binary/project/raises/" + _exc(e), "Project.save/load raised %r" % e)
+            v.add("binary/project/raises/" + type(e).__name__, "(%s) " % _exc(e) + "Project.save/load raised %r" % e)
             v.flush()
         ps2 = P2.parsets[ps.name]
         pg2 = P2.progsets[pg.name] if pg is not None else None
-        _content(v, "framework", H.proj_framework(F), H.proj_framework(P2.framework), 0.0, "binary/content")
-        _content(v, "databook", H.proj_data(D), H.proj_data(P2.data), 0.0, "binary/content")
-        _content(v, "calibration", H.proj_calibration(ps), H.proj_calibration(ps2), 0.0, "binary/content")
-        if pg is not None:
-            _content(v, "progbook", H.proj_progset(pg), H.proj_progset(pg2), 0.0, "binary/content")
+        try:
+            _content(v, "framework", H.proj_framework(F), H.proj_framework(P2.framework), 0.0, "binary/content")
+            _content(v, "databook", H.proj_data(D), H.proj_data(P2.data), 0.0, "binary/content")
+            _content(v, "calibration", H.proj_calibration(ps), H.proj_calibration(ps2), 0.0, "binary/content")
+            _content(v, "parset-values", H.proj_parset_values(ps), H.proj_parset_values(ps2), 0.0, "binary/content")
+            if pg is not None:
+                _content(v, "progbook", H.proj_progset(pg), H.proj_progset(pg2), 0.0, "binary/content")
+        except Exception as e:
+            v.add("binary/content/loaded-object-broken/" + type(e).__name__, "(%s) reading the content of the loaded project raised %r" % (_exc(e), e))
         if tuple(P2.settings.tvec) != tuple(stg.tvec):
             v.add("binary/content/settings", "time vector changed")
         try:
@@ -390,7 +394,7 @@ def check_binary(case):
             if c:
                 v.add("binary/project/behaviour", "loaded project does not simulate bit-identically: %r" % (c,))
         except Exception as e:
-            v.add("binary/project/not-runnable/" + _exc(e), "loaded project raises %r" % e)
+            v.add("binary/project/not-runnable/" + type(e).__name__, "(%s) " % _exc(e) + "loaded project raises %r" % e)
         # result and single objects
         try:
             fr = os.path.join(d, "r.obj")
@@ -414,7 +418,7 @@ def check_binary(case):
         except Violation:
             raise
         except Exception as e:
-            v.add("binary/objects/raises/" + _exc(e), "saving/loading raised %r" % e)
+            v.add("binary/objects/raises/" + type(e).__name__, "(%s) " % _exc(e) + "saving/loading raised %r" % e)
     v.flush()
     return {"nontrivial": _rich(case), "labels": _labels(case)}
 
